@@ -88,9 +88,10 @@ def finding(region, what, err, tol, l, **kw):
 
 class C13:
     id = 'C13'
-    props_files = ['SmoothProps/C13.lean']
-    props_module = 'SmoothProps.C13'
-    lean_targets = ['SmoothProps.C13']
+    # SrcTieLogic: the scalar decision logic regenerated from the C++ source by tools/gen_logic.py is the model (C13All = C13 + SrcTieLogic)
+    props_files = ['SmoothProps/C13.lean', 'SmoothProps/SrcTieLogic.lean']
+    props_module = 'SmoothProps.C13All'
+    lean_targets = ['SmoothProps.C13All']
 
     @property
     def translators(self):
